@@ -28,6 +28,7 @@ type bmRun struct {
 	idx  *comet.BM25SearchIndex
 	dict map[string]int
 	rng  *rand.Rand
+	text map[int]string // text of every document the harness added and did not remove (its own record, not the index's)
 }
 
 // refTokens: tokens by the definition of C03 (independent composition of the two libraries)
@@ -56,6 +57,7 @@ func (r *bmRun) toks(text string) []int {
 
 func (r *bmRun) reset() {
 	r.idx = comet.NewBM25SearchIndex()
+	r.text = map[int]string{}
 	r.t.ev("reset", E{})
 }
 
@@ -82,12 +84,18 @@ func (r *bmRun) stats() {
 
 func (r *bmRun) add(id int, text string) {
 	err := r.idx.Add(uint32(id), text)
+	if err == nil {
+		r.text[id] = text
+	}
 	r.t.ev("add", E{"id": id, "toks": r.toks(text), "ok": err == nil, "text": text})
 	r.stats()
 }
 
 func (r *bmRun) remove(id int) {
 	err := r.idx.Remove(uint32(id))
+	if err == nil {
+		delete(r.text, id)
+	}
 	r.t.ev("remove", E{"id": id, "ok": err == nil})
 	r.stats()
 }
@@ -119,15 +127,61 @@ func (r *bmRun) reload() {
 		nr, err = fresh.ReadFrom(rd)
 		rest, _ = io.ReadAll(rd)
 	}
+	var qa, qb [][][2]int64
 	if err == nil {
+		qa, qb = r.probe(r.idx), r.probe(fresh)
 		r.idx = fresh
 	}
-	r.t.ev("reload", E{"ok": err == nil, "nw": nw, "nr": nr, "len": l, "rest": len(rest), "trailer": len(trailer)})
+	r.t.ev("reload", E{"ok": err == nil, "nw": nw, "nr": nr, "len": l, "rest": len(rest), "trailer": len(trailer), "qa": qa, "qb": qb})
 	r.stats()
 }
 
-func (r *bmRun) search(queries []string, k int, filt []int, agg string) {
-	s := r.idx.NewSearch().WithQuery(queries...).WithK(k)
+// nodeQuery: the query a node-id search stands for by the index's documentation ("looks up the original text of the
+// document and uses it as query"; the tokens are joined by single spaces), from the harness's own record of the text.
+func nodeQuery(text string) string { return strings.Join(refTokens(text), " ") }
+
+// probe: answers of an index to a fixed family of text and node-id queries (a failed query is rendered as [[-1,-1]])
+func (r *bmRun) probe(idx *comet.BM25SearchIndex) [][][2]int64 {
+	out := [][][2]int64{}
+	one := func(rs []comet.TextResult, err error) {
+		res := [][2]int64{}
+		if err != nil {
+			res = append(res, [2]int64{-1, -1})
+		}
+		for _, x := range rs {
+			res = append(res, [2]int64{int64(x.GetId()), fx(float64(x.GetScore()), 1e6)})
+		}
+		out = append(out, res)
+	}
+	for _, q := range []string{"aa", "bb aa", "cc bb dd", "fi k 猫", "  "} {
+		one(idx.NewSearch().WithQuery(q).WithK(-1).Execute())
+	}
+	for id := 1; id <= 8; id++ {
+		one(idx.NewSearch().WithNode(uint32(id)).WithK(-1).Execute())
+	}
+	return out
+}
+
+func (r *bmRun) search(queries []string, k int, filt []int, agg string) { r.searchN(queries, nil, k, filt, agg) }
+
+func (r *bmRun) searchN(queries []string, nodes []int, k int, filt []int, agg string) {
+	s := r.idx.NewSearch().WithK(k)
+	if len(queries) > 0 {
+		s = s.WithQuery(queries...)
+	}
+	nqs := [][]int{}
+	if len(nodes) > 0 {
+		ns := []uint32{}
+		for _, n := range nodes {
+			ns = append(ns, uint32(n))
+			if tx, ok := r.text[n]; ok {
+				nqs = append(nqs, r.toks(nodeQuery(tx)))
+			} else {
+				nqs = append(nqs, []int{})
+			}
+		}
+		s = s.WithNode(ns...)
+	}
 	if len(filt) > 0 {
 		f := []uint32{}
 		for _, x := range filt {
@@ -148,7 +202,7 @@ func (r *bmRun) search(queries []string, k int, filt []int, agg string) {
 	for _, q := range queries {
 		qs = append(qs, r.toks(q))
 	}
-	r.t.ev("search", E{"qs": qs, "k": k, "filt": nzi(filt), "agg": agg, "ok": err == nil, "res": res})
+	r.t.ev("search", E{"qs": qs, "nodes": nzi(nodes), "nqs": nqs, "k": k, "filt": nzi(filt), "agg": agg, "ok": err == nil, "res": res})
 }
 
 func (r *bmRun) randText(maxWords int) string {
@@ -174,6 +228,10 @@ func (r *bmRun) battery() {
 	for _, agg := range []string{"sum", "max", "mean"} {
 		r.search([]string{"aa", "bb aa"}, -1, nil, agg)
 		r.search([]string{"aa", "bb", "aa bb"}, 1, nil, agg)
+		// node-id queries: "more like this document", alone, twice, and next to a text query; unknown / removed ids are errors
+		r.searchN(nil, []int{1}, -1, nil, agg)
+		r.searchN(nil, []int{2, 2}, 2, nil, agg)
+		r.searchN([]string{"bb"}, []int{1, 2}, -1, nil, agg)
 		// a query given twice counts twice
 		r.search([]string{"aa", "aa"}, -1, nil, agg)
 		r.search([]string{"bb", "aa", "bb"}, -1, nil, agg)
@@ -276,7 +334,16 @@ func drvBM25(args []string) error {
 						qs = append(qs, r.randText(3))
 					}
 				}
-				r.search(qs, k, filt, []string{"sum", "max", "mean"}[r.rng.Intn(3)])
+				var nodes []int
+				if r.rng.Intn(4) == 0 {
+					for i := 1 + r.rng.Intn(2); i > 0; i-- {
+						nodes = append(nodes, 1+r.rng.Intn(*maxIDs))
+					}
+					if r.rng.Intn(2) == 0 {
+						qs = nil
+					}
+				}
+				r.searchN(qs, nodes, k, filt, []string{"sum", "max", "mean"}[r.rng.Intn(3)])
 			}
 		}
 	}
